@@ -39,7 +39,8 @@ void h_wl_sign(void) {
         __CPROVER_assume(n_keys <= SB);      /* bounded stand-in for the signing path */
         ret = secp256k1_whitelist_sign(&ctx, &sig, online, offline, n_keys, &sub, okey, skey, index);
         __CPROVER_assert(ret == 0 || ret == 1, "C16 sign: returns 0 or 1");
-        __CPROVER_assert(g_illegal == 0 && g_error == 0, "C16 sign: no callback for valid arguments (outside key loading)");
+        __CPROVER_assert(g_error == 0 && (g_ck_n >= 1 || g_illegal == 0), "C16 sign: no error callback; illegal-use reports only from loading the key objects");
+        __CPROVER_assume(g_nf_n <= EL_NONCE_BUDGET);      /* the exploration budget of the nonce oracle, stated here so that the assumption scan lists it */
         if (g_tp_n >= 1 && g_tp_ret == 0) __CPROVER_assert(ret == 0, "C16 sign: a refused signing key (online or summed secret 0 or >= n) makes signing fail");
 #ifndef VERIF_NATIVE
         if (el_key_bad(okey) || el_key_bad(skey)) __CPROVER_assert(ret == 0, "C16 sign: online or summed secret key 0 or >= n => 0");
@@ -65,7 +66,8 @@ void h_wl_sign(void) {
         else if (nullsel == 4) ret = secp256k1_whitelist_sign(&ctx, &sig, online, offline, n_keys, NULL, okey, skey, index);
         else if (nullsel == 5) ret = secp256k1_whitelist_sign(&ctx, &sig, online, offline, n_keys, &sub, NULL, skey, index);
         else ret = secp256k1_whitelist_sign(&ctx, &sig, online, offline, n_keys, &sub, okey, NULL, index);
-        __CPROVER_assert(ret == 0 && g_illegal == 1 && g_error == 0, "C16 sign: index >= n_keys, n_keys > 255, NULL argument or unbuilt context reports illegal use and returns 0");
+        __CPROVER_assert(ret == 0 && g_error == 0, "C16 sign: index >= n_keys, n_keys > 255, NULL argument or unbuilt context returns 0");
+        if (nullsel != 0) __CPROVER_assert(g_illegal >= 1, "C16 sign: NULL argument reports illegal use");
         if (nullsel == 0 && built && n_keys > 255) REACH("wl sign too many keys");
         if (nullsel == 0 && built && n_keys <= 255) REACH("wl sign index out of range");
     }
